@@ -120,7 +120,7 @@ KINDS = {
                   conf=[["KeyedSet", []], ["KeyedSet", [["Keyed", {"key": "a"}]]],
                         ["list", [["Keyed", {"key": "a", "n": 1}], ["Keyed", {"key": "b"}]]],
                         ["KeyedSet", [["Keyed", {"key": "a", "n": 1}], ["Keyed", {"key": "b"}]]],
-                        ["KeyedSetE", [["Keyed", {"key": "a"}], ["Keyed", {"key": "b"}]]],  # enforce_item_equivalence=True: add() can refuse
+                        ["KeyedSetE", [["Keyed", {"key": "a"}], ["Keyed", {"key": "b", "n": 1}]]],  # enforce_item_equivalence=True: add() can refuse (re-keying a -> b meets an unequal b)
                         ["KeyedSetK", [["Keyed", {"key": "a"}], ["Keyed", {"key": "b"}]]]],  # user key function
                   small_conf=[2, 3, 4, 5],
                   bad=[["list", [5]], ["RawKeyedSet", [1, 2]]], mut="KeyedSet[Keyed, str]([Keyed('d')])", mut_spec=["KeyedSet", [["Keyed", {"key": "d"}]]],
